@@ -71,6 +71,10 @@ ARRAY_OPS = ['sq-ctor', 'curly-ctor', 'array:put', 'array:append', 'array:append
              'let-alias-append', 'let-alias-put', 'nest-arr-map', 'nest-arr-arr']
 WRAPPABLE = ('map:get', 'map:contains', 'map:put', 'map:remove', 'map-call', 'map-lookup', 'array:get', 'array:remove',
              'array-call', 'array-lookup', 'array:put')
+LOOP_FORMS = ["for $x in %s return map{'k': $x}?*", "for $x in %s return map{'k': $x}?k", "for $x in %s return map{'k': $x}('k')",
+              "for $x in %s return [$x]?*", "for $x in %s return [$x](1)", "for $x in %s return array{$x, 0}?1", "%s ! map{'k': .}?*",
+              "%s ! [.]?1", "for $x in %s return map:get(map{'k': $x, 'j': 0}, 'k')", "for $x in %s return array:size([$x, $x])#size",
+              "for $x in %s return array:get([0, $x], 2)", "for $x in %s return map{'k': $x, 'j': $x}?j"]
 DUPS = ['use-first', 'use-last', 'combine', 'reject', 'use-any', None]
 
 
@@ -123,6 +127,12 @@ def expr_and_model(op, pool, template=False):
     if name.startswith('u:'):
         tmpl = UNMODELLED_ARRAY.get(name) or UNMODELLED_MAP[name]
         return tmpl % tuple(r[:tmpl.count('%s')]), None
+    if name == 'loop-ctor':
+        # a constructor with context-dependent entries evaluated again and again (one call site, many values)
+        form = LOOP_FORMS[op['form'] % len(LOOP_FORMS)]
+        if form.endswith('#size'):
+            return form[:-5] % r[0], lambda: M.norm([['int', '2'] for _x in M.as_seq(M.norm(v(0)))])
+        return form % r[0], lambda: M.norm(v(0))
     if name == 'map:put':
         return 'map:put(%s, %s, %s)' % (r[0], r[1], r[2]), lambda: M.map_put(v(0), v(1), v(2))
     if name == 'map:remove':
@@ -306,6 +316,10 @@ def gen_case(rng, tier):
             # an array / a map built through the Python API from caller-owned containers that are modified afterwards
             ops.append({'name': 'py-ctor', 'kind': 'array' if rng.random() < 0.6 else 'map',
                         'args': [atom() for _i in range(rng.choice([1, 2, 3]))]})
+            continue
+        if rng.random() < 0.05:
+            ops.append({'name': 'loop-ctor', 'form': rng.randrange(len(LOOP_FORMS)),
+                        'args': [{'seq': [atom() for _i in range(rng.choice([2, 3, 4]))]}]})
             continue
         if rng.random() < 0.12 and mode != 'reused-tokens':
             kind = 'map' if want_map else 'array'
